@@ -132,3 +132,33 @@ register('C10', title='amplitude / rate covariance',
                  'thorough': {'nontrivial': 2000}},
          assumptions=PIPE_ASSUME + ['powers of two commute exactly with IEEE arithmetic (no under/overflow in the generated range)'],
          quick_shards=8, thorough_shards=16)
+
+register('C11', title='2-D group = per-signal, in order',
+         deciding=['pool_worker_events'],
+         rule='pool runs of compute_features_2d(axis=0) / BycycleGroup.fit on 2-12 pairwise different rows with shared dict / None / '
+              'per-row option lists (centrings, methods, thresholds, ignored return_samples keys), n_jobs in {1,2,3,n,n+3,-1}, progress '
+              'in {None, tqdm, tqdm.notebook}; completion order chosen by per-row delays injected inside the workers (all 24 orders for '
+              'n=4 [quick: a subset], all 120 for n=5 in the thorough tier). Oracle: position i == real compute_features on row i with '
+              'options i (exact table equality); offline check of the worker event log: every row analysed exactly once with its own '
+              'options; observed completion permutations recorded. Non-trivial = pool run with >= 2 rows whose worker events were '
+              'observed; distinct by SHA-1 of the case.',
+         floors={'quick': {'nontrivial': 20, 'classes': {'runs_completing_out_of_submission_order': 8, 'worker_events': 60}},
+                 'thorough': {'nontrivial': 200, 'classes': {'runs_completing_out_of_submission_order': 100}}},
+         assumptions=['the per-signal analysis itself is decided by C01-C07', 'delays are sleeps before the analysis inside a worker; '
+                      'workers share no state'],
+         quick_shards=8, thorough_shards=16)
+
+register('C13', title='epoched analysis partitions the flattened analysis',
+         deciding=['epoch_df', 'compute_features_2d_axis_none'],
+         rule='generated: 2-8 epochs, epoch length from half a period to ten periods (empty and many-cycle epochs), epoch-aligned '
+              'signals whose extrema fall exactly on multiples of the epoch length, both centrings and methods, single dict / None / '
+              'per-epoch lists with different thresholds. Oracle (offline, on the returned list): concatenation with indices shifted '
+              'back == the flattened compute_features table row for row, each row in the epoch containing its closing extremum (exact '
+              'coincidence with a boundary: either adjacent epoch), feature values unchanged; single option set: labels == '
+              'flattened labels; per-epoch list: labels == C06/C07 reference rule on that epoch\'s table with that epoch\'s thresholds. '
+              'Non-trivial = >= 2 non-empty epochs and >= 1 cycle straddling an epoch boundary.',
+         floors={'quick': {'nontrivial': 100, 'classes': {'empty_epochs': 10, 'boundary_coincidences': 20, 'per_epoch_list': 40,
+                                                          'single_option_set': 40}},
+                 'thorough': {'nontrivial': 5000}},
+         assumptions=['the flattened analysis itself is decided by C01-C07'],
+         quick_shards=8, thorough_shards=16)
